@@ -492,6 +492,10 @@ def run_case(case):
   finally:
     sw.close()
   out.nontrivial = nt[0]
+  if case.get("grid"):
+    # keep the evidence readable: the grid is one fixed scenario, only its port-rule classes are of interest
+    out.labels = ["grid"] + sorted(set("grid:" + l for l in out.labels
+                                       if l.startswith(("blocked:", "ingress-", "miss-with", "controller-output-with", "mode:"))))
   return out
 
 
@@ -789,9 +793,9 @@ _MAC = st.one_of(st.sampled_from([bytes(6), b"\xff" * 6, R.STP_MAC, bytes.fromhe
 
 
 @st.composite
-def _payload(draw, odd_rate=4, maxlen=40):
+def _payload(draw, odd_rate=2, maxlen=40):
   n = draw(st.integers(0, maxlen // 2)) * 2
-  if draw(st.integers(0, odd_rate - 1)) == 0:
+  if draw(st.integers(0, odd_rate - 1)) == odd_rate - 1:
     n += 1
   return draw(st.binary(min_size=n, max_size=n))
 
@@ -820,7 +824,7 @@ def _tcp_opts(draw):
       opts.append(["raw", draw(st.sampled_from([19, 28, 34, 253, 254])), draw(st.binary(min_size=0, max_size=6))])
     else:
       opts.append(["nop"])
-  pad = "eol" if draw(st.integers(0, 7)) == 0 else "nop"
+  pad = "eol" if draw(st.integers(0, 7)) == 7 else "nop"
   try:
     return F12.tcp_options(opts, pad=pad)
   except ValueError:
@@ -836,15 +840,15 @@ def _ipv4_packet(draw, proto_kind):
   ttl = draw(st.sampled_from([1, 64, 128, 255]))
   df = draw(st.booleans())
   options = b""
-  if draw(st.integers(0, 9)) == 0:
+  if draw(st.integers(0, 9)) == 9:
     options = draw(st.sampled_from([b"\x01\x01\x01\x01", b"\x94\x04\x00\x00", b"\x07\x07\x04\x00\x00\x00\x00\x00",
                                     b"\x44\x0c\x05\x00\x00\x00\x00\x00\x00\x00\x00\x00"]))
   frag = draw(st.integers(0, 11))
   mf = False
   fragoff = 0
-  if frag == 0:
+  if frag == 10:
     mf = True                                   # first fragment: built whole below, then cut
-  elif frag == 1:
+  elif frag == 11:
     fragoff = draw(st.sampled_from([1, 2, 185, 0x1fff]))
     mf = draw(st.booleans())
   whole = not mf and fragoff == 0
@@ -856,12 +860,12 @@ def _ipv4_packet(draw, proto_kind):
   elif proto_kind == "udp":
     proto = 17
     sport, dport = draw(_U16), draw(_U16)
-    if draw(st.integers(0, 29)) == 0:
+    if draw(st.integers(0, 29)) == 29:
       if draw(st.booleans()):
         sport = draw(st.sampled_from(_SPECIAL_UDP))
       else:
         dport = draw(st.sampled_from(_SPECIAL_UDP))
-    csum = 0 if draw(st.integers(0, 19)) == 0 else None
+    csum = 0 if draw(st.integers(0, 19)) == 19 else None
     seg = F.build_udp(src, dst, sport, dport, payload=draw(_payload()), checksum=csum)
   elif proto_kind == "icmp":
     proto = 1
@@ -901,7 +905,7 @@ def frame_strategy(draw):
   v = draw(st.integers(0, 19))
   vlan = None
   if v >= 11:
-    cfi = 1 if draw(st.integers(0, 11)) == 0 else 0
+    cfi = 1 if draw(st.integers(0, 11)) == 11 else 0
     tag = [draw(st.integers(0, 7)), cfi, draw(st.sampled_from([0, 1, 100, 4094, 4095]))]
     vlan = [tag]
     if v == 19:
@@ -992,17 +996,34 @@ def action_strategy(draw, nports, allow_table):
 
 
 @st.composite
-def step_strategy(draw, nports):
-  m = draw(st.integers(0, 19))
-  mode = "packet_out" if m <= 8 else ("flow" if m <= 17 else "miss")
+def _action_list(draw, nports, allow_table):
+  n = draw(st.integers(0, 6))
+  acts = [draw(action_strategy(nports, allow_table)) for _ in range(n)]
+  if n >= 3 and draw(st.integers(0, 3)) == 3:
+    # interleave: make the odd positions outputs that can emit, so rewrites sit between outputs
+    for i in range(1, n, 2):
+      if acts[i]["a"] not in ("output", "enqueue"):
+        acts[i] = {"a": "output", "port": draw(st.one_of(_phys_port(nports), st.sampled_from([R.OFPP_FLOOD, R.OFPP_ALL, R.OFPP_IN_PORT, R.OFPP_CONTROLLER]))),
+                   "max_len": draw(st.sampled_from([0, 64, 0xffff]))}
+  return acts
+
+
+@st.composite
+def step_strategy(draw, nports, mode=None):
+  if mode is None:
+    m = draw(st.integers(0, 19))
+    mode = "packet_out" if m <= 8 else ("flow" if m <= 17 else "miss")
   frame = draw(frame_strategy())
   if mode == "packet_out":
-    in_port = draw(st.one_of(_phys_port(nports), _phys_port(nports), st.sampled_from([R.OFPP_NONE, R.OFPP_NONE, R.OFPP_CONTROLLER, nports + 1])))
+    in_port = draw(st.one_of(_phys_port(nports), _phys_port(nports), _phys_port(nports),
+                             st.sampled_from([R.OFPP_NONE, R.OFPP_NONE, R.OFPP_NONE, R.OFPP_CONTROLLER, R.OFPP_CONTROLLER, nports + 1])))
   else:
-    in_port = draw(st.one_of(_phys_port(nports), _phys_port(nports), _phys_port(nports), _phys_port(nports), st.just(nports + 1)))
+    in_port = draw(_phys_port(nports))
+    if draw(st.integers(0, 24)) == 24:
+      in_port = nports + 1
   step = {"mode": mode, "frame": frame, "in_port": in_port}
   if mode != "miss":
-    step["actions"] = draw(st.lists(action_strategy(nports, mode == "packet_out"), min_size=0, max_size=6))
+    step["actions"] = draw(_action_list(nports, mode == "packet_out"))
   if mode == "flow":
     step["match"] = draw(st.sampled_from(["all", "all", "in_port"]))
   return step
@@ -1025,19 +1046,30 @@ def case_strategy(draw):
       else:
         mb = draw(st.integers(0, 63))
         mask = sum(b for i, (n, b) in enumerate(BITS) if mb >> i & 1)
-      if draw(st.integers(0, 9)) == 0:
+      if draw(st.integers(0, 9)) == 9:
         config |= draw(st.sampled_from([R.OFPPC_NO_STP, 0x80, 0x80000000]))
         mask |= draw(st.sampled_from([R.OFPPC_NO_STP, 0x80, 0x80000000]))
-      pms.append({"port": draw(st.one_of(_phys_port(nports), _phys_port(nports), _phys_port(nports), st.just(nports + 1))),
-                  "config": config, "mask": mask, "hw": draw(st.integers(0, 11)) != 0})
+      pms.append({"port": nports + 1 if draw(st.integers(0, 11)) == 11 else draw(_phys_port(nports)),
+                  "config": config, "mask": mask, "hw": draw(st.integers(0, 11)) != 11})
     case["portmods"] = pms
-  if draw(st.integers(0, 7)) == 0:
+  if draw(st.integers(0, 7)) == 7:
     case["link_down"] = [draw(_phys_port(nports))]
   fm = draw(st.integers(0, 19))
   if fm >= 18:
     case["frag"] = 1 if fm == 18 else 2
-  ns = draw(st.sampled_from([1, 1, 1, 1, 1, 1, 2, 2, 3]))
-  case["steps"] = [draw(step_strategy(nports)) for _ in range(ns)]
+  ns = draw(st.sampled_from([1, 1, 1, 1, 1, 1, 2, 2, 3, 0]))
+  if ns == 0:
+    # OFPP_TABLE scenario: install a flow (its own frame is delivered too), then packet-out through the table
+    first = draw(step_strategy(nports, mode=draw(st.sampled_from(["flow", "flow", "flow", "miss"]))))
+    second = draw(step_strategy(nports, mode="packet_out"))
+    if draw(st.integers(0, 3)) != 0:
+      second["in_port"] = first["in_port"] if draw(st.booleans()) else draw(_phys_port(nports))
+    acts = second["actions"][:5]
+    acts.insert(draw(st.integers(0, len(acts))), {"a": "output", "port": R.OFPP_TABLE, "max_len": 0})
+    second["actions"] = acts
+    case["steps"] = [first, second]
+  else:
+    case["steps"] = [draw(step_strategy(nports)) for _ in range(ns)]
   if draw(st.booleans()):
     case["stats_port"] = draw(_phys_port(nports))
   return case
@@ -1091,7 +1123,7 @@ def _grid(tier, mode):
     for stp in (0, 1):
       for ic in range(64):
         for ec in (range(64) if mode != "miss" else [0]):
-          case = {"nports": 3,
+          case = {"nports": 3, "grid": True,
                   "portmods": [{"port": 1, "config": _cfg(ic), "mask": KNOWN_BITS, "hw": True},
                                {"port": 2, "config": _cfg(ec), "mask": KNOWN_BITS, "hw": True}],
                   "steps": [{"mode": mode, "frame": frames[(w, stp)], "in_port": 1}]}
@@ -1103,7 +1135,7 @@ def _grid(tier, mode):
 
 
 def plan(tier):
-  n = 2400 if tier == "quick" else 64000
+  n = 6000 if tier == "quick" else 64000
   return [
     Enum("grid-flow", lambda: _grid(tier, "flow"), shards=16),
     Enum("grid-packet-out", lambda: _grid(tier, "packet_out"), shards=16),
